@@ -514,8 +514,15 @@ impl<'a> Session<'a> {
                 let mut rl = csl::Relays::new();
                 for i in 0..*relays {
                     match i % 3 {
-                        0 => rl.add(&csl::Relay::new_single_host_addr(&csl::SingleHostAddr::new(Some(3000 + i as u16), Some(csl::Ipv4::new(vec![10, 0, 0, i]).unwrap()), None))),
-                        1 => rl.add(&csl::Relay::new_single_host_name(&csl::SingleHostName::new(None, &csl::DNSRecordAorAAAA::new(format!("r{}.example.com", i)).unwrap()))),
+                        // every combination of the optional fields occurs (port, IPv4, IPv6 present or `null`)
+                        0 => {
+                            let combo = (i / 3).wrapping_add((*cost % 8) as u8) % 8;
+                            let port = if combo & 1 == 0 { Some(3000 + i as u16) } else { None };
+                            let v4 = if combo & 2 == 0 { Some(csl::Ipv4::new(vec![10, 0, 0, i]).unwrap()) } else { None };
+                            let v6 = if combo & 4 != 0 { Some(csl::Ipv6::new(vec![0x20, 1, 0xd, 0xb8, 0, 0, 0, 0, 0, 0, 0, 0, 0, 0, 0, i]).unwrap()) } else { None };
+                            rl.add(&csl::Relay::new_single_host_addr(&csl::SingleHostAddr::new(port, v4, v6)))
+                        }
+                        1 => rl.add(&csl::Relay::new_single_host_name(&csl::SingleHostName::new(if (*cost / 8) % 2 == 1 { Some(6000 + i as u16) } else { None }, &csl::DNSRecordAorAAAA::new(format!("r{}.example.com", i)).unwrap()))),
                         _ => rl.add(&csl::Relay::new_multi_host_name(&csl::MultiHostName::new(&csl::DNSRecordSRV::new(format!("_s{}._tcp.example.com", i)).unwrap()))),
                     }
                 }
